@@ -116,6 +116,24 @@ func init() {
 		"(*strings.Builder).String":    extBuilderString,
 		"(*strings.Builder).grow":      extBuilderGrow,
 		"strings.Clone":                func(fr *frame, a []value) value { return a[0] },
+		"internal/stringslite.Clone":   func(fr *frame, a []value) value { return a[0] },
+		"strconv.cloneString":          func(fr *frame, a []value) value { return a[0] },
+		// util/hack: zero-copy conversions through unsafe headers, modelled as conversions
+		"github.com/XiaoMi/Gaea/util/hack.String": func(fr *frame, a []value) value {
+			b, _ := a[0].([]value)
+			r := make([]value, len(b))
+			copy(r, b)
+			return mkstr(r)
+		},
+		"github.com/XiaoMi/Gaea/util/hack.Slice": func(fr *frame, a []value) value {
+			if strLen(a[0]) == 0 {
+				return []value(nil)
+			}
+			b := strBytes(a[0])
+			r := make([]value, len(b))
+			copy(r, b)
+			return r
+		},
 		"unique.Make":                  nil,
 
 		// runtime
